@@ -34,7 +34,9 @@ loop, forwarding wrappers) and C15 (which string reaches GMP) now lead to a stru
 are violations only when a concrete call misbehaves (section 8.6).
 ''' % (len(rows), 'forty', '\n'.join(rows))
     p = os.path.join(V, 'DESIGN.md'); s = open(p).read()
-    i = s.find('### 8.5 Seeded changes')
+    i = s.find('### 8.5 Seeded changes'); j = s.find('### 8.6 ')
+    tail = s[j:] if j >= 0 else ''
     if i >= 0: s = s[:i].rstrip() + '\n\n'
-    open(p, 'w').write(s.rstrip() + '\n\n' + text)
+    elif j >= 0: s = s[:j].rstrip() + '\n\n'
+    open(p, 'w').write(s.rstrip() + '\n\n' + text.rstrip() + '\n\n' + tail)
 if __name__ == '__main__': main()
